@@ -74,8 +74,14 @@ where
                     };
                     acc
                 });
-        // Choose the group with the most members
-        if let Some((k, v)) = groups.iter().max_by_key(|c| c.1) {
+        // Choose the group with the most members; on ties take the one that occurs first in the
+        // candidates to be independent of the per-process hash seed.
+        let max_count = groups.values().copied().max().unwrap_or(0);
+        if let Some((k, v)) = candidates_with_len_n
+            .iter()
+            .find(|c| groups.get(*c) == Some(&max_count))
+            .and_then(|c| groups.get_key_value(c))
+        {
             if v > &1 {
                 // Found prefix is only useful if the group contains more than one member
                 k.to_vec()
